@@ -1015,7 +1015,8 @@ func (y *ifFeatureEval) wellFormed() bool {
 	return expr() && i == len(tokens)
 }
 
-func (y *ifFeatureEval) eval(greedy bool) {
+// eval returns true when it stopped at the ")" closing the group it was reading
+func (y *ifFeatureEval) eval(greedy bool) bool {
 	for !y.end() {
 		tok := y.next()
 		if tok == "" {
@@ -1026,7 +1027,7 @@ func (y *ifFeatureEval) eval(greedy bool) {
 		case "(":
 			y.eval(false)
 		case ")":
-			return
+			return true
 		case "and":
 			y.eval(true)
 			a, b := y.pop(), y.pop()
@@ -1035,9 +1036,14 @@ func (y *ifFeatureEval) eval(greedy bool) {
 			y.eval(true)
 			y.push(!y.pop())
 		case "or":
-			y.eval(false)
+			closed := y.eval(false)
 			a, b := y.pop(), y.pop()
 			y.push(a || b)
+			if closed {
+				// the right hand side read up to the ")" of the group this "or" is in,
+				// what follows belongs to the enclosing expression
+				return true
+			}
 		default:
 			if y.prefix != "" && strings.HasPrefix(tok, y.prefix+":") {
 				tok = tok[len(y.prefix)+1:]
@@ -1046,10 +1052,10 @@ func (y *ifFeatureEval) eval(greedy bool) {
 			y.push(found)
 		}
 		if greedy {
-			return
+			return false
 		}
 	}
-	return
+	return false
 }
 
 func (y *ifFeatureEval) end() bool {
